@@ -184,6 +184,12 @@ func (l *Link) Watch(window time.Duration, need int32) {
 // Stop ends the stall detector.
 func (l *Link) Stop() { l.monOnce.Do(func() { close(l.stopMon) }) }
 
+// slowBudget is the number of bytes per direction that are delivered in the
+// byte-at-a-time / delayed modes; bulk data beyond it moves in random
+// fragments without sleeps (a multi-megabyte streaming session would
+// otherwise take minutes of idle wall-clock time).
+const slowBudget = 48 * 1024
+
 func (e *End) pause(r *vrt.Rng) {
 	if e.DelayPct > 0 && r.Intn(100) < e.DelayPct {
 		if r.Intn(4) == 0 {
@@ -202,8 +208,11 @@ func (e *End) Write(p []byte) (int, error) {
 	if e.WriteErrAfter > 0 && e.nw >= e.WriteErrAfter {
 		return 0, ErrInjected
 	}
-	e.pause(e.wr)
-	if e.LazyCopy && e.wr.Intn(3) == 0 {
+	slow := e.out.written < slowBudget // racy read of a counter: only a pacing hint
+	if slow {
+		e.pause(e.wr)
+	}
+	if slow && e.LazyCopy && e.wr.Intn(3) == 0 {
 		// hold the caller's slice for a while before copying out of it: a
 		// buffer reused too early becomes a content mismatch
 		time.Sleep(time.Duration(20+e.wr.Intn(300)) * time.Microsecond)
@@ -248,8 +257,10 @@ func (e *End) Read(p []byte) (int, error) {
 	if e.ReadErrAfter > 0 && e.nr >= e.ReadErrAfter {
 		return 0, ErrInjected
 	}
-	e.pause(e.rr)
 	d := e.in
+	if d.read < slowBudget {
+		e.pause(e.rr)
+	}
 	d.mu.Lock()
 	defer d.mu.Unlock()
 	parked := false
@@ -279,7 +290,11 @@ func (e *End) Read(p []byte) (int, error) {
 	if n > len(p) {
 		n = len(p)
 	}
-	switch e.Frag {
+	frag := e.Frag
+	if d.read >= slowBudget && (frag == FragOne || frag == FragSmall) {
+		frag = FragRandom
+	}
+	switch frag {
 	case FragOne:
 		n = 1
 	case FragSmall:
